@@ -11,6 +11,8 @@ Main results (each for ALL inputs: any number of masters, glyphs, points, pairs,
                           masters: the linear blend ((p-v)A + vB)/p
 * `C19_swap_ref`, `C19_swap_involution`, `C19_swap_unicodes`, `C19_swap_render`, `C19_swap_missing`   rule substitutions
 * `C19_glyphset`, `C19_unicodes`           the instance has the default source's names and code points
+* `C19_collect_ref`       the masters of a glyph are every source that has it, minus - only if the default source's glyph
+                          is not empty - those where it is empty: wherever the default source stands in the source list
 * `C19_instance_geometry` the whole `generate_instance`: undoing the substitutions in force, every glyph satisfies `holdsGlyph`
 * `C19_kern_blend`, `C19_holdsKern`, `C19_kern_round`   kerning: masters storing the same pairs blend pair by pair
 * `C19_pure`              the glyph-mutator cache cannot change any result (history independence)
@@ -1820,6 +1822,120 @@ theorem processRulesSwaps_known (loc : Loc) (names : List String) : ∀ (rules :
     simp only [filter_cons, ruleActive]
     by_cases hc : (r.condSets.any (fun cs => cs.all (condHolds loc))) = true <;> simp [hc]
 
+/-! ### G'. which sources are masters of a glyph: the two-step filter of `collect_glyph_masters` is order free -/
+
+theorem filterMap_congr_all {α β : Type} {f g : α → Option β} (h : ∀ x, f x = g x) (l : List α) :
+    l.filterMap f = l.filterMap g := by
+  have : f = g := funext h
+  rw [this]
+
+theorem zipIdx_filterMap_forget {α β γ : Type} (f : α → Option β) (h : α → β → γ) (p : γ → Bool) :
+    ∀ (l : List α) (k : Nat),
+    (((l.zipIdx k).filterMap (fun (e : α × Nat) => (f e.1).map (fun g => (e.2, h e.1 g)))).filter (fun e => p e.2)).map (·.2)
+      = l.filterMap (fun s => (f s).bind (fun g => if p (h s g) then some (h s g) else none))
+  | [], _ => by simp
+  | a :: l, k => by
+    have ih := zipIdx_filterMap_forget f h p l (k + 1)
+    simp only [zipIdx_cons, filterMap_cons]
+    cases hf : f a with
+    | none => simpa using ih
+    | some g =>
+      simp only [Option.map_some, filter_cons, Option.bind_some]
+      by_cases hp : p (h a g) = true
+      · simp only [hp, if_true, map_cons]; rw [ih]
+      · simp only [hp, Bool.false_eq_true, if_false]; rw [ih]
+
+/-- "the default glyph is empty", as the loop of `collect_glyph_masters` finds it out (flag set when the loop reaches
+    index `default_source_idx`), is a fact about the default source alone -/
+theorem collect_defaultEmpty (ds : DS) (di : Nat) (name : String) :
+    (ds.sources.zipIdx.filterMap (fun (e : Source × Nat) =>
+      (e.1.glyphs.find? (fun g => g.name == name)).map (fun g => (e.2, nloc ds e.1.loc, g.g)))).any
+      (fun e => e.1 == di && isEmptyGlyph e.2.2) = defaultGlyphEmpty ds di name := by
+  rw [Bool.eq_iff_iff]
+  simp only [any_eq_true, mem_filterMap, Option.map_eq_some_iff, Bool.and_eq_true, beq_iff_eq]
+  unfold defaultGlyphEmpty srcGlyph
+  constructor
+  · rintro ⟨e, ⟨⟨s, i⟩, hmem, g, hg, rfl⟩, hi, he⟩
+    have hs := mem_zipIdx_iff_getElem?.1 hmem
+    simp only at hi hs he
+    subst hi
+    simp only [hs, hg, Option.map_some]
+    exact he
+  · intro h
+    cases hs : ds.sources[di]? with
+    | none => simp [hs] at h
+    | some s =>
+      cases hg : s.glyphs.find? (fun g => g.name == name) with
+      | none => simp [hs, hg] at h
+      | some g =>
+        simp only [hs, hg, Option.map_some] at h
+        exact ⟨(di, nloc ds s.loc, g.g), ⟨(s, di), mem_zipIdx_iff_getElem?.2 hs, g, hg, rfl⟩, rfl, h⟩
+
+/-- **C19_collect_ref**: the masters `collect_glyph_masters` returns are exactly the declarative `glyphMastersRef`:
+    every source that has the glyph, minus - only if the default source's glyph is not empty - those where it is empty.
+    In particular the result does not depend on where in the source list the default source stands (a single pass
+    that drops an empty glyph before it has seen the default glyph does not have this property). -/
+theorem C19_collect_ref (ds : DS) (di : Nat) (name : String) :
+    collectGlyphMasters ds di name = glyphMastersRef ds di name := by
+  unfold collectGlyphMasters glyphMastersRef
+  simp only
+  rw [collect_defaultEmpty]
+  have hall := zipIdx_filterMap_forget (fun s : Source => s.glyphs.find? (fun g => g.name == name))
+    (fun s g => (nloc ds s.loc, g.g)) (fun _ => true) ds.sources 0
+  have hne := zipIdx_filterMap_forget (fun s : Source => s.glyphs.find? (fun g => g.name == name))
+    (fun s g => (nloc ds s.loc, g.g)) (fun e => !isEmptyGlyph e.2) ds.sources 0
+  rw [filter_eq_self.2 (fun _ _ => rfl)] at hall
+  cases hD : defaultGlyphEmpty ds di name with
+  | true =>
+    simp only [Bool.not_true, Bool.false_and, Bool.false_eq_true, if_false, Bool.true_or, if_true]
+    rw [hall]
+    apply filterMap_congr_all
+    intro s
+    unfold srcGlyph
+    cases s.glyphs.find? (fun g => g.name == name) <;> simp
+  | false =>
+    simp only [Bool.not_false, Bool.true_and, Bool.false_or]
+    have hrhs : ds.sources.filterMap (fun s => (srcGlyph s name).bind (fun g =>
+          if (!(g.contours.isEmpty && g.comps.isEmpty)) = true then some (nloc ds s.loc, g) else none))
+        = ds.sources.filterMap (fun s => (s.glyphs.find? (fun g => g.name == name)).bind (fun g =>
+          if (!isEmptyGlyph (nloc ds s.loc, g.g).2) = true then some (nloc ds s.loc, g.g) else none)) := by
+      apply filterMap_congr_all
+      intro s
+      unfold srcGlyph isEmptyGlyph
+      cases s.glyphs.find? (fun g => g.name == name) <;> simp
+    rw [hrhs, ← hne]
+    split
+    · rfl
+    · rename_i hoe
+      congr 1
+      symm
+      rw [filter_eq_self]
+      intro e he
+      -- no empty glyph among the others (hoe) and none at the default (hD)
+      have h1 := collect_defaultEmpty ds di name
+      rw [hD] at h1
+      simp only [Bool.not_eq_true] at hoe
+      rw [any_eq_false] at h1 hoe
+      have a1 := h1 e he
+      have a2 := hoe e he
+      cases hemp : isEmptyGlyph e.2.2 with
+      | false => rfl
+      | true =>
+        exfalso
+        rw [hemp] at a1 a2
+        cases hq : (e.1 == di) <;> simp [hq, bne] at a1 a2
+
+/-- Light, Regular (default, listed second), Bold: `space` is empty in all three, only its advance varies -/
+def exSpace (w : Q) (l : Q) : Source :=
+  ⟨[("Weight", l)], false, [⟨"space", [32], ⟨w, 0, [], [], []⟩⟩], [], [], []⟩
+def exOrderDS : DS := ⟨[⟨"Weight", "wght", 100, 400, 900, []⟩], [exSpace 200 100, exSpace 250 400, exSpace 320 900], [], [], []⟩
+
+example : findDefault exOrderDS = some 1 := by decide +kernel
+example : defaultGlyphEmpty exOrderDS 1 "space" = true := by decide +kernel
+/-- all three masters take part although the first is met before the default source -/
+example : (collectGlyphMasters exOrderDS 1 "space").map (·.2.width) = [200, 250, 320] := by
+  rw [C19_collect_ref]; decide +kernel
+
 /-- **C19_instance_geometry**: for every instance the model produces, undoing the substitutions in force (the
     declarative `specSwaps`) leaves a font in which every glyph of the default source satisfies `holdsGlyph` - the
     master itself at a master location, the weighted sum for compatible masters elsewhere, `otRound`ed iff
@@ -1866,6 +1982,7 @@ theorem C19_instance_geometry (ds : DS) (round : Bool) (inst : Instance) (out : 
   subst hdd
   rcases hor with hok | ⟨hskip, hempty, _⟩
   · left
+    simp only [Ctx.glyphItems, ← C19_collect_ref]
     exact C19_glyph ds di round d'.name _ g.g hok
   · right
     exact ⟨hskip, hempty⟩
